@@ -138,6 +138,31 @@ def gen_input(rng, kind, delim):
     return data
 
 
+def gz_partial_drain_input(rng, bs, limit=6 << 20):
+    """Hardly compressible text lines (base64 alphabet, 76 per line) such that, written through ONE gzip shard in
+    blocks of bs bytes, some write() ends with 1..5 free bytes in the writer's 4096-byte output buffer: the next
+    write()/flush() must then hand over exactly the filled part (C15's ensure_output split; the seeded C15-m3 /
+    C06-p2 change hands over the whole buffer and the .gz is corrupt).  deflate is simulated with the writer's
+    parameters; the input is cut two blocks behind the first hit.  Returns (data, free bytes at the hit) or None."""
+    import zlib
+    alpha = b"ABCDEFGHIJKLMNOPQRSTUVWXYZabcdefghijklmnopqrstuvwxyz0123456789+/"
+    for _ in range(6):
+        raw = rng.getrandbits(8 * 76 * 16000).to_bytes(76 * 16000, "little")       # 1.2 MB per attempt
+        text = bytes(alpha[b & 63] for b in raw)
+        data = b"\n".join(text[i:i + 76] for i in range(0, len(text), 76)) + b"\n"
+        co = zlib.compressobj(9, zlib.DEFLATED, 31, 8)
+        emitted = 0
+        for k in range(0, len(data), bs):
+            emitted += len(co.compress(data[k:k + bs]))
+            if emitted > 4096 and emitted % 4096 >= 4091:
+                cut = data.find(b"\n", min(len(data) - 1, k + 3 * bs))
+                return (data if cut < 0 else data[:cut + 1]), 4096 - emitted % 4096
+        limit -= len(data)
+        if limit <= 0:
+            break
+    return None
+
+
 def main(argv):
     c = Check("C06", argv)
     ok, blog = build_repo(["hx_shard", "shard", "dedupe", "vcodec"])
@@ -260,6 +285,10 @@ def main(argv):
     # them: CreateOrThrow opens with O_TRUNC).  A big plain run first, then the run under test.
     for n, comp, kind in ((3, "none", "few"), (4, "gzip", "one"), (5, "bzip2", "empty"), (2, "none", "empty"), (6, "gzip", "few"), (3, "none", "some")):
         runs.append({"n": n, "comp": comp, "spec": "1-", "delim": b"\t", "kind": kind, "naming": rng.choice(["prefix", "explicit"]), "history": True})
+    # a gzip shard whose writer gets a block while its output buffer has 1..5 bytes free (steered, see gz_partial_drain_input)
+    runs.append({"n": 1, "comp": "gzip", "spec": "1-", "delim": b"\t", "kind": "gz-partial-drain", "naming": "prefix"})
+    if c.tier == "thorough":
+        runs.append({"n": 1, "comp": "gzip", "spec": "1-", "delim": b"\t", "kind": "gz-partial-drain", "naming": "explicit"})
     # carriage returns before the newline are data (finding F-C06-cr-stripped, fixed); trailing delimiter (C10's finding, fixed)
     runs.append({"n": 5, "comp": "none", "spec": "1-", "delim": b"\t", "kind": "cr", "naming": "prefix"})
     for n, comp in ((1, "none"), (3, "gzip"), (4, "none"), (2, "bzip2")):
@@ -274,6 +303,12 @@ def main(argv):
             dlt = int(r["kind"][len("block-edge"):])
             # every line is 8192+delta bytes with its newline: the k-th line ends k*delta bytes off a block edge
             data = b"".join(bytes([97 + i]) * (8191 + dlt) + b"\n" for i in range(5)) + b"tail\n"
+        elif r["kind"] == "gz-partial-drain":
+            hit = gz_partial_drain_input(rng, BS)
+            if hit is None:
+                c.broken.append("no input found that leaves 1..5 free bytes in the gzip writer's buffer at a block boundary")
+                continue
+            data = hit[0]
         elif r["kind"] == "cr":
             data = b"a\r\nb\r\nplain\nx\r\r\n"
         elif r["kind"] == "cr-random":
@@ -438,13 +473,21 @@ def main(argv):
                 if any(y.ain > BS for y in runs_) or (tot >= BS and not any(y.ain == BS for y in runs_)) or (0 < tot < BS and runs_ and runs_[0].ain != tot):
                     c.violation("writer-hand-off-not-in-blocks: a shard of %d bytes reached the codec in pieces %r" % (tot, [y.ain for y in runs_][:8]), rep)
                     break
+            if comp == "gzip":
+                dcalls = [x for x in calls if x.fn == "deflate"]
+                nhit = sum(1 for a, b in zip(dcalls, dcalls[1:]) if a.id == b.id and 1 <= a.aout2 <= 5 and b.aout == 4096)
+                c.cov["distribution"]["codec-log/gzip-write-found-1..5-free-bytes"] = c.cov["distribution"].get("codec-log/gzip-write-found-1..5-free-bytes", 0) + nhit
+                if r["kind"] == "gz-partial-drain" and nhit == 0:
+                    c.broken.append("the steered gzip input did not produce a partially filled hand-over (codec log shows none)")
             c.cov["distribution"]["codec-log/block-hand-off-checked"] = c.cov["distribution"].get("codec-log/block-hand-off-checked", 0) + len(per)
             for x in calls:
                 if x.flag in (4, 2) and x.ain != 0:
                     c.violation("finish-with-undefined-input: %s(FINISH) called with avail_in=%d on a shard writer" % (x.fn, x.ain), rep)
                     break
-        # model correspondence: collect
-        pending.append((ri, r, data, recs, outs))
+        # model correspondence: collect (not the megabyte-sized steered gzip input: the extracted list model is
+        # quadratic in the lines of one shard; that run is about the validity of the file)
+        if r["kind"] != "gz-partial-drain":
+            pending.append((ri, r, data, recs, outs))
 
     # ------------------------------------------------------------ model vs tool
     if drv and pending:
